@@ -40,7 +40,8 @@ HistoryRows == {Row3(HET, HOM1, HET),      \* complete, polymorphic
                 Row3(HET, HET, MISS),      \* the last column missing
                 Row3(MULT, HOM0, HOM1),    \* multiallelic
                 Row3(MISS, MISS, MISS)}    \* everything missing
-FaultRows == {Row3(G1(1), HET, HET), Row3(HET, HET, G3(0, 1, 1)), [Row3(HET, HET, HET) EXCEPT !.bad = TRUE]}
+FaultRows == {Row3(G1(1), HET, HET), Row3(HET, HET, G3(0, 1, 1)), [Row3(HET, HET, HET) EXCEPT !.bad = TRUE],
+              Row3(MISS, G1(1), HET), Row3(MULT, HOM0, G1(0))}     \* a skippable call BEFORE the ploidy error
 
 Orders3 == {<<"a", "b", "c">>}
 AllOrders3 == {<<"a", "b", "c">>, <<"a", "c", "b">>, <<"b", "a", "c">>, <<"b", "c", "a">>, <<"c", "a", "b">>, <<"c", "b", "a">>}
@@ -51,7 +52,7 @@ SeqsUpTo(R, n) == UNION {[1..k -> R] : k \in 0..n}
 MCSeq_single5 == SeqsUpTo(Rows(S3, A5), 1)
 MCSeq_single9 == SeqsUpTo(Rows(S3, A9), 1)
 \* C10/C11: histories over record classes, with and without faults
-QuickFaultRows == {Row3(G1(1), HET, HET), [Row3(HET, HET, HET) EXCEPT !.bad = TRUE]}
+QuickFaultRows == {Row3(G1(1), HET, HET), [Row3(HET, HET, HET) EXCEPT !.bad = TRUE], Row3(MISS, HET, G1(1))}
 QuickHistoryRows == {Row3(HET, HOM1, HET), Row3(MISS, HOM1, HET), Row3(HET, HET, MISS), Row3(MULT, HOM0, HOM1)}
 MCSeq_hist_quick == SeqsUpTo(QuickHistoryRows \cup QuickFaultRows, 3)
 MCSeq_hist3 == SeqsUpTo(HistoryRows \cup FaultRows, 3)
